@@ -9,18 +9,45 @@ import (
 
 func init() {
 	verifrt.Register("VH_c05_robust", VH_c05_robust)
+	verifrt.Register("VH_c01_result_any", VH_c01_result_any)
 }
 
-var vhC05Kinds = []string{"no-payload", "resultData", "detailedDiscoveryData", "subscriptionRequestCall", "subscriptionDeleteCall", "bindingRequestCall", "bindingDeleteCall",
+// C01's clause "never any result in answer to a result" on the wider domain: any decoded result datagram,
+// whatever its payload lacks (a failing result must not be answered either).
+func VH_c01_result_any() { vhC05("resultData", "connected") }
+
+var vhC05Kinds = []string{"no-payload", "resultData", "detailedDiscoveryData", "detailedDiscoveryData-features", "subscriptionRequestCall", "subscriptionDeleteCall", "bindingRequestCall", "bindingDeleteCall",
 	"subscriptionData", "bindingData", "useCaseData", "destinationListData", "loadControlLimitListData", "deviceClassificationManufacturerData"}
 
 // C05: one structurally valid datagram with every optional field absent, empty or arbitrary, in three
 // connection states; message handling must return, and both peers must still be served afterwards.
 // The clause of C01 "never any result in answer to a result" is asserted on this wider domain as well.
-func VH_c05_robust() {
+func VH_c05_robust() { vhC05("", "") }
+
+func vhC05(fixKind, fixState string) {
+	// every payload kind on an established connection; five representative kinds in the two other states as well
+	type kc struct{ kind, state string }
 	states := []string{"before-discovery", "connected", "after-entity-removal"}
-	cs := verifrt.ShardChoice("case", len(vhC05Kinds)*len(states))
-	kind, state := vhC05Kinds[cs/len(states)], states[cs%len(states)]
+	var cases []kc
+	// (a) arbitrary header with a simple payload, in the three connection states;
+	// (b) every payload kind, arbitrary, under a header whose addresses and counter are present (so that
+	//     handling gets past the header), on an established connection; four kinds in the other states too
+	for _, st := range states {
+		cases = append(cases, kc{"header", st})
+	}
+	for _, k := range vhC05Kinds {
+		cases = append(cases, kc{k, "connected"})
+	}
+	if verifrt.Param("allStates", 0) == 1 {
+		for _, k := range []string{"resultData", "detailedDiscoveryData", "subscriptionRequestCall", "loadControlLimitListData"} {
+			cases = append(cases, kc{k, "before-discovery"}, kc{k, "after-entity-removal"})
+		}
+	}
+	kind, state := fixKind, fixState
+	if fixKind == "" {
+		cs := verifrt.ShardChoice("case", len(cases))
+		kind, state = cases[cs].kind, cases[cs].state
+	}
 	verifrt.Scenario(kind + "/" + state)
 	w := vhNewWorld(vhWorldOpts{noEvents: true})
 	nmL := vhAddr("L", []uint{0}, 0)
@@ -41,19 +68,58 @@ func VH_c05_robust() {
 	}
 
 	// ---- the datagram: header and payload filled without any well-formedness assumption
-	deep := verifrt.Spec{MaxLen: 2, Depth: verifrt.Param("depth", 5), MaxUint: 9, Skip: []string{"TimePeriodType", "SpecificationVersion"}}
+	ml := verifrt.Param("maxLen", 1)
+	mu := uint64(verifrt.Param("maxUint", 3))
+	deep := verifrt.Spec{MaxLen: ml, Depth: verifrt.Param("depth", 4), MaxUint: mu, Skip: []string{"TimePeriodType", "SpecificationVersion"}}
 	var d model.DatagramType
-	verifrt.Fill("header", &d.Header, deep)
+	hdrSpec := deep
+	hdrSpec.Only = []string{"AddressSource", "AddressDestination", "MsgCounter", "MsgCounterReference", "CmdClassifier", "AckRequest"}
+	verifrt.Fill("header", &d.Header, hdrSpec)
 	nCmd := verifrt.Choice("cmds", 2)
+	if kind == "header" {
+		kind = "resultData"
+	} else {
+		// the header gets the message to the payload handlers: announced source, resolvable destination, counter present
+		dev := "A"
+		if state == "before-discovery" {
+			dev = "C"
+		}
+		src, dst := vhAddr(dev, []uint{0}, 0), nmL
+		if kind == "loadControlLimitListData" || kind == "deviceClassificationManufacturerData" {
+			src, dst = vhAddr(dev, []uint{1}, 1), w.F1.Address()
+			if verifrt.Concrete(verifrt.Bool("header.to-client-feature")) {
+				dst = w.F3.Address()
+			}
+		}
+		d.Header.AddressSource, d.Header.AddressDestination = src, dst
+		verifrt.Assume(verifrt.All(!verifrt.IsNil(d.Header.MsgCounter), !verifrt.IsNil(d.Header.CmdClassifier), !verifrt.IsNil(d.Header.MsgCounterReference)))
+		if verifrt.Param("allStates", 0) == 0 {
+			verifrt.Assume(verifrt.IsNil(d.Header.AckRequest)) // quick tier: acknowledgement not requested
+		}
+		nCmd = 1
+	}
 	if nCmd == 1 {
 		var cmd model.CmdType
 		switch kind {
 		case "resultData":
 			cmd.ResultData = new(model.ResultDataType)
 			verifrt.Fill("cmd.resultData", cmd.ResultData, deep)
+		case "detailedDiscoveryData-features":
+			// a well-formed entity entry (entity [2] of the sender, added) with arbitrary feature entries
+			dd := new(model.NodeManagementDetailedDiscoveryDataType)
+			verifrt.Fill("cmd.discovery", dd, verifrt.Spec{MaxLen: ml, Depth: 5, MaxUint: mu, Only: []string{"FeatureInformation"}, Skip: []string{"TimePeriodType", "Label", "MaxResponseDelay", "SpecificUsage", "MinimumTrustLevel", "DescriptionType"}})
+			ei := vhEntInfo("A", []uint{2})
+			st := model.NetworkManagementStateChangeTypeAdded
+			ei.Description.LastStateChange = &st
+			dd.EntityInformation = []model.NodeManagementDetailedDiscoveryEntityInformationType{ei}
+			dd.DeviceInformation = &model.NodeManagementDetailedDiscoveryDeviceInformationType{Description: &model.NetworkManagementDeviceDescriptionDataType{}}
+			cmd.NodeManagementDetailedDiscoveryData = dd
+			if verifrt.Concrete(verifrt.Bool("cmd.partial")) {
+				cmd.Filter = []model.FilterType{*model.NewFilterTypePartial()}
+			}
 		case "detailedDiscoveryData":
 			cmd.NodeManagementDetailedDiscoveryData = new(model.NodeManagementDetailedDiscoveryDataType)
-			verifrt.Fill("cmd.discovery", cmd.NodeManagementDetailedDiscoveryData, verifrt.Spec{MaxLen: 2, Depth: 5, MaxUint: 9, Skip: []string{"TimePeriodType", "SpecificationVersionList", "Label", "MaxResponseDelay", "SpecificUsage", "MinimumTrustLevel", "Description"}})
+			verifrt.Fill("cmd.discovery", cmd.NodeManagementDetailedDiscoveryData, verifrt.Spec{MaxLen: ml, Depth: 5, MaxUint: mu, Skip: []string{"SupportedFunction", "TimePeriodType", "SpecificationVersionList", "Label", "MaxResponseDelay", "SpecificUsage", "MinimumTrustLevel", "DescriptionType", "DeviceType", "NetworkFeatureSet", "NativeSetup", "TechnologyAddress", "CommunicationsTechnologyInformation", "FederatedAllowed", "NetworkManagementResponsibleAddress", "DeviceAddress"}})
 		case "subscriptionRequestCall":
 			cmd.NodeManagementSubscriptionRequestCall = new(model.NodeManagementSubscriptionRequestCallType)
 			verifrt.Fill("cmd.subscriptionRequest", cmd.NodeManagementSubscriptionRequestCall, deep)
@@ -77,9 +143,9 @@ func VH_c05_robust() {
 			cmd.NodeManagementDestinationListData = new(model.NodeManagementDestinationListDataType)
 		case "loadControlLimitListData":
 			cmd.LoadControlLimitListData = new(model.LoadControlLimitListDataType)
-			verifrt.Fill("cmd.limits", cmd.LoadControlLimitListData, verifrt.Spec{MaxLen: 1, Depth: 3, MaxUint: 9, Skip: []string{"TimePeriodType"}})
+			verifrt.Fill("cmd.limits", cmd.LoadControlLimitListData, verifrt.Spec{MaxLen: 1, Depth: 3, MaxUint: mu, Skip: []string{"TimePeriodType", "ScaledNumberType"}})
 			// filters: control element and the selectors/elements of this function, all optional
-			nf := verifrt.Choice("filters", 3)
+			nf := verifrt.Choice("filters", verifrt.Param("maxFilters", 1)+1)
 			for i := 0; i < nf; i++ {
 				var f model.FilterType
 				verifrt.Fill(fmt.Sprintf("cmd.filter[%d]", i), &f, verifrt.Spec{MaxLen: 1, Depth: 2, MaxUint: 9, Only: []string{"CmdControl", "LoadControlLimitListDataSelectors", "LoadControlLimitDataElements"}, Skip: []string{"TimePeriodType"}})
@@ -94,14 +160,10 @@ func VH_c05_robust() {
 	vhDeliver(r, d)
 	verifrt.Reach("handled")
 	out := vhCount(wr, w0)
-	isResult := verifrt.Concrete(verifrt.All(!verifrt.IsNil(d.Header.CmdClassifier)))
-	if isResult {
-		isResult = verifrt.Concrete(verifrt.SameStr(string(*d.Header.CmdClassifier), string(model.CmdClassifierTypeResult)))
-	}
-	if isResult {
-		verifrt.Reach("classifier-result")
-		verifrt.Assert("never-a-result-in-answer-to-a-result", out.results == 0)
-	}
+	// (decided by the solver without forking on the classifier)
+	resCl := model.CmdClassifierTypeResult
+	isResult := verifrt.DeepEq(d.Header.CmdClassifier, &resCl)
+	verifrt.Assert("never-a-result-in-answer-to-a-result", verifrt.Implies(isResult, out.results == 0))
 	// ---- afterwards every peer is still served
 	for p := 0; p < 2; p++ {
 		rr, ww, dev := w.peer(p)
